@@ -1,5 +1,5 @@
 #!/venv/bin/python
-"""One-off importer: round-3 seeded changes written by sub-agents in scratch worktrees /tmp/seed3/<id>/ ->
+"""Importer: round-3 / round-4 seeded changes written by sub-agents in scratch worktrees /tmp/seed3/<id>/ ->
 seeded/<id>-s<k>/{patch.diff,demo.py,notes.md[,helpers]}.  Hard-coded scratch paths in the demos are rewritten to the
 directory the demo runs from."""
 import os
@@ -9,6 +9,8 @@ import sys
 
 HERE = os.path.dirname(os.path.dirname(os.path.abspath(__file__)))
 SRC = sys.argv[1] if len(sys.argv) > 1 else "/tmp/seed3"
+SUFFIX = sys.argv[2] if len(sys.argv) > 2 else "s"          # round 3: -sK, round 4: -tK
+ROUND = {"s": 3, "t": 4}.get(SUFFIX, SUFFIX)
 
 for pid in sorted(os.listdir(SRC)):
     if not re.fullmatch(r"C\d\d", pid):
@@ -23,17 +25,17 @@ for pid in sorted(os.listdir(SRC)):
         pf = os.path.join(d, f"seed_{k}.patch")
         if not os.path.exists(pf):
             continue
-        out = os.path.join(HERE, "seeded", f"{pid}-s{k}")
+        out = os.path.join(HERE, "seeded", f"{pid}-{SUFFIX}{k}")
         os.makedirs(out, exist_ok=True)
         shutil.copy(pf, os.path.join(out, "patch.diff"))
         demo = open(os.path.join(d, f"demo_{k}.py")).read()
         here = '__import__("os").path.dirname(__import__("os").path.abspath(__file__))'
-        demo = re.sub(r'"/tmp/seed3/C\d\d/"', f'({here} + "/")', demo)
-        demo = re.sub(r'"/tmp/seed3/C\d\d/([^"]*)"', lambda m: f'({here} + "/{m.group(1)}")', demo)
-        assert "/tmp/seed3" not in demo, (pid, k)
+        demo = re.sub(r'"/tmp/seed\d/C\d\d/"', f'({here} + "/")', demo)
+        demo = re.sub(r'"/tmp/seed\d/C\d\d/([^"]*)"', lambda m: f'({here} + "/{m.group(1)}")', demo)
+        assert "/tmp/seed" not in demo, (pid, k)
         open(os.path.join(out, "demo.py"), "w").write(demo)
         open(os.path.join(out, "notes.md"), "w").write(
-            f"# {pid} round 3, seed {k} (written by a sub-agent given only the property text)\n\n"
+            f"# {pid} round {ROUND}, seed {k} (written by a sub-agent given only the property text)\n\n"
             + (bynum.get(k) or notes))
         for f in os.listdir(d):
             if f.endswith(".py") and not f.startswith("demo_") and f != "setup.py":
